@@ -7,13 +7,11 @@ import (
 	"math/rand"
 	"net"
 	"os"
-	"strconv"
 	"strings"
 	"time"
 
 	"verifharness/forge"
 	"verifharness/tsgu"
-	"verifharness/wsraw"
 )
 
 // Script is an abstract single-tunnel scenario generated from the spec.
@@ -317,54 +315,9 @@ func (i *Inst) RunProto(s Script, tw *TraceWriter, rng *rand.Rand) error {
 	}
 	tw.Line(M{"ev": "reset", "script": s.ID, "origin": s.Origin, "transport": s.Transport,
 		"cfg": M{"tokenAuth": cfg.TokenAuth, "smartCard": cfg.SmartCard, "redir": rd, "idle": cfg.Idle}})
-
-	oo := OpenOpts{Transport: s.Transport, LocalIP: s.Tun.UseIP, XFF: s.Tun.UseXFF}
-	user := s.Tun.User
-	cc := &cookieCtx{}
-	userSyms := []string{}
-	if user != "" {
-		userSyms = []string{user}
-	}
-	minted := false
-	ensureMint := func() error {
-		if minted || !(cfg.Auth == "openid" || cfg.Auth == "") || !cfg.TokenAuth {
-			return nil
-		}
-		minted = true
-		hostParam := ""
-		if cfg.Sel == "unsigned" {
-			hostParam = i.Conc(s.Tun.Entry)
-		} else if cfg.Sel == "any" {
-			hostParam = i.Conc(append(append([]string{}, s.Tun.HostName...), ":", s.Tun.HostPort))
-		}
-		if cfg.Sel == "signed" {
-			now := time.Now().Unix()
-			hostParam = forge.JWS("HS256", []byte(KeyQuery), forge.Header("HS256"),
-				forge.Claims(map[string]interface{}{"iss": QueryIssuer, "sub": i.Conc(s.Tun.Entry), "exp": now + 300}))
-		}
-		login := s.Tun.Login
-		if login == "" {
-			login = user
-		}
-		tok, _, at, err := i.MintAs(user, login, hostParam, s.Tun.MintIP, s.Tun.MintXFF)
-		if err != nil {
-			return fmt.Errorf("mint: %w", err)
-		}
-		cc.good, cc.at = tok, at
-		cc.goodTok, cc.claims = i.describeMinted(tok, at)
-		if cc.claims == nil {
-			return fmt.Errorf("minted token does not decode: %q", tok)
-		}
-		return nil
-	}
-	switch cfg.Auth {
-	case "openid", "":
-	case "ntlm":
-		oo.NTLM = &wsraw.NTLMCreds{User: user, Pass: i.Users[user]}
-	case "local":
-		oo.Basic = user + ":" + i.Users[user]
-	}
-	t, rep, err := i.Open(oo)
+	pc := i.NewProtoCtx(s, rng)
+	userSyms := pc.UserSyms
+	t, rep, err := i.Open(pc.OpenOpts())
 	if err != nil {
 		return fmt.Errorf("open: %w", err)
 	}
@@ -372,143 +325,11 @@ func (i *Inst) RunProto(s Script, tw *TraceWriter, rng *rand.Rand) error {
 		return fmt.Errorf("open refused: %d", rep.Status)
 	}
 	defer t.Close()
-
-	peerIP := s.Tun.UseIP
-	if peerIP == "" {
-		peerIP = "127.0.0.1"
-	}
-	backendMark := map[string]int{}
-	for n, b := range i.Backends {
-		backendMark[n] = b.NConns()
-	}
 	for _, st := range s.Steps {
 		k := str(st, "k", "other")
-		cls := str(st, "cls", "valid")
-		lp := M{"k": k, "cls": cls}
-		var pkt []byte
-		switch k {
-		case "hs":
-			caps := num(st, "caps", 0)
-			major, minor := num(st, "major", 1), num(st, "minor", 0)
-			pkt = tsgu.Handshake(byte(major), byte(minor), uint16(num(st, "version", 0)), uint16(caps))
-			lp["caps"], lp["major"], lp["minor"] = caps, major, minor
-			if cls == "trunc" {
-				pkt = tsgu.Packet(tsgu.PktHandshakeRequest, pkt[8:8+rng.Intn(6)])
-			} else if cls == "long" {
-				pkt = tsgu.Packet(tsgu.PktHandshakeRequest, append(pkt[8:], make([]byte, 1+rng.Intn(40))...))
-				cls = "valid" // trailing bytes after a complete body: the fields are all there
-				lp["cls"] = "valid"
-			}
-		case "create":
-			ck := str(st, "cookie", "none")
-			lp["hascookie"] = ck != "none"
-			lp["tok"] = tokRec("none", "none", "other", "missing", false, 0, false, 0, "unknown", "none")
-			var cookie string
-			switch {
-			case ck == "none":
-				pkt = tsgu.TunnelCreate(0x2, "", false)
-			case ck == "good":
-				if err := ensureMint(); err != nil {
-					return err
-				}
-				if cc.good == "" {
-					// no token authentication in this configuration: present some string
-					cookie = "no-token-mode"
-					lp["tok"] = tokRec("garbage", "none", "other", "missing", false, 0, false, 0, "unknown", "none")
-				} else {
-					cookie = cc.good
-					// refresh the age of the description
-					d, _ := i.describeMinted(cc.good, cc.at)
-					lp["tok"] = d
-				}
-				pkt = tsgu.TunnelCreate(0x2, cookie, true)
-			default:
-				if err := ensureMint(); err != nil {
-					return err
-				}
-				kind := strings.TrimPrefix(ck, "bad:")
-				if kind == "bad" || kind == "" {
-					kind = BadCookieKinds[rng.Intn(len(BadCookieKinds))]
-				}
-				if cc.claims == nil {
-					cc.claims = map[string]interface{}{"iss": "rdpgw", "sub": user, "remoteServer": "127.0.0.1:1", "clientIp": "127.0.0.1"}
-				}
-				if i.IdP == nil {
-					cookie = "forged-" + kind
-					lp["tok"] = tokRec("garbage", "none", "other", "missing", false, 0, false, 0, "unknown", "none")
-				} else {
-					var d M
-					cookie, d = i.Forge(kind, cc, rng)
-					lp["tok"] = d
-					lp["kind"] = kind
-				}
-				pkt = tsgu.TunnelCreate(0x2, cookie, true)
-			}
-			if cls == "trunc" {
-				body := pkt[8:]
-				pkt = tsgu.Packet(tsgu.PktTunnelCreate, body[:rng.Intn(8)])
-				lp["hascookie"] = false
-			} else if cls == "long" && ck != "none" {
-				u := tsgu.UTF16LE(cookie)
-				pkt = tsgu.TunnelCreateRaw(0x2, 0x1, uint16(len(u)+2+2*rng.Intn(100)), u)
-				// the declared cookie is longer than what is carried: not the minted string
-				if ck == "good" {
-					lp["tok"].(M)["mut"] = "trunc"
-				}
-			}
-		case "auth":
-			pkt = tsgu.TunnelAuth(str(st, "client", "verif-client"))
-			if cls == "trunc" {
-				pkt = tsgu.Packet(tsgu.PktTunnelAuth, pkt[8:8+rng.Intn(2)])
-			}
-		case "chan":
-			name := syms(st, "name")
-			port := str(st, "port", "PA")
-			cname := i.Conc(name)
-			cport, _ := strconv.Atoi(i.Conc([]string{port}))
-			nb := tsgu.UTF16LE(cname)
-			switch cls {
-			case "valid":
-				pkt = tsgu.ChannelCreateRaw(1, 0, uint16(cport), 3, uint16(len(nb)), nb)
-			case "trunc":
-				full := tsgu.ChannelCreateRaw(1, 0, uint16(cport), 3, uint16(len(nb)), nb)
-				pkt = tsgu.Packet(tsgu.PktChannelCreate, full[8:8+rng.Intn(8)])
-			case "long":
-				pkt = tsgu.ChannelCreateRaw(1, 0, uint16(cport), 3, uint16(len(nb)+2+2*rng.Intn(50)), nb)
-			case "odd":
-				pkt = tsgu.ChannelCreateRaw(1, 0, uint16(cport), 3, uint16(len(nb)+1), append(nb, 0x41))
-			}
-			tokHost := []string{}
-			tokAddr := addrRec("")
-			if cc.claims != nil {
-				if rs, ok := cc.claims["remoteServer"].(string); ok {
-					tokHost = i.Abs(rs, append([][]string{name, {port}, userSyms}, cfg.Hosts...))
-				}
-				if ca, ok := cc.claims["clientIp"].(string); ok {
-					tokAddr = addrRec(ca)
-				}
-			}
-			hosts := cfg.Hosts
-			if hosts == nil {
-				hosts = [][]string{}
-			}
-			lp["pol"] = M{"tokenAuth": cfg.TokenAuth, "sel": cfg.Sel, "hosts": hosts, "user": userSyms, "name": name, "port": port,
-				"tokHost": tokHost, "verifyIp": cfg.VerifyIp, "tokAddr": tokAddr, "xff": xffList(s.Tun.UseXFF), "peer": addrRec(peerIP)}
-		case "data":
-			n := num(st, "n", 16)
-			payload := make([]byte, n)
-			rng.Read(payload)
-			pkt = tsgu.Data(uint16(n), payload)
-		case "keepalive":
-			pkt = tsgu.Keepalive()
-		case "close":
-			pkt = tsgu.CloseChannel(0)
-		default:
-			pt := num(st, "pt", 0x7f)
-			body := make([]byte, rng.Intn(24))
-			rng.Read(body)
-			pkt = tsgu.Packet(uint16(pt), body)
-			lp["pt"] = pt
+		pkt, lp, err := pc.Build(st)
+		if err != nil {
+			return err
 		}
 		r, err := t.Step(pkt)
 		if err != nil {
